@@ -136,6 +136,15 @@ def run(ctx):
         bufs = [i for i in range(1, b.arg_count + 1) if "PrefixedStringBuf" in b.locals[i]["ty"]]
         valbuf, defbuf = bufs[0], bufs[1]
         dom = b.dominators()
+
+        def writes_def(x, names):
+            """x appends to the definition buffer: directly, or by handing it to a local helper"""
+            if x.name in names and x.args and any(y[0] == "arg" and y[1] == defbuf for y in pr.operand(x.args[0])):
+                return True
+            if any(sb.crate == CR for sb in local_callee_bodies(F, x)):
+                return any(op_local(a) is not None and "PrefixedStringBuf" in b.local_ty(op_local(a)) and
+                           any(y[0] == "arg" and y[1] == defbuf for y in pr.operand(a)) for a in x.args)
+            return False
         inner = [c for c in b.calls() if any(sb.crate == CR for sb in local_callee_bodies(F, c)) and "Result<(), " in (b.local_ty(c.dest["l"]) if not c.dest.get("p") else "")
                  and any(any(x[0] == "arg" and x[1] == valbuf for x in pr.operand(a)) for a in c.args)]
         ctx.check(len(inner) == 1, "R03.3", fnkey(b) + "#single-value-write", loc(b), "expected one fallible value write, found %d" % len(inner))
@@ -158,8 +167,7 @@ def run(ctx):
             ctx.check(bool(good_tr) and b.must_pass([x.bb for x in good_tr], start=err_t), "R03.3", key + "#skipped-value-rolled-back", loc(b, err_t),
                       "when every observation of a metric is skipped the value buffer is not truncated back to the length recorded before the "
                       "write: a member name without value stays in the record")
-            defw = [x for x in b.calls() if x.bb in b.reachable(err_t) and x.name in ("push", "push_raw_str", "json_string", "push_integer") and
-                    any(y[0] == "arg" and y[1] == defbuf for y in pr.operand(x.args[0]))]
+            defw = [x for x in b.calls() if x.bb in b.reachable(err_t) and writes_def(x, ("push", "push_raw_str", "json_string", "push_integer"))]
             ctx.check(not defw, "R03.3", key + "#skipped-metric-not-declared", loc(b, err_t), "a skipped metric is still declared in the directive (bb%s)" % [x.bb for x in defw])
         # NoMetric: a branch on the storage mode whose NoMetric side returns without definition writes
         nm_ok = False
@@ -173,9 +181,8 @@ def run(ctx):
                     tg = {v: tb for v, tb in t["targets"]}
                     nt = tg.get(vm.get("NoMetric"))
                     if nt is not None:
-                        defw = [x for x in b.calls() if x.bb in b.reachable(nt) and x.name in ("push", "push_raw_str", "json_string") and
-                                any(y[0] == "arg" and y[1] == defbuf for y in pr.operand(x.args[0]))]
-                        others = [x for x in b.calls() if x.name in ("push_raw_str",) and any(y[0] == "arg" and y[1] == defbuf for y in pr.operand(x.args[0]))]
+                        defw = [x for x in b.calls() if x.bb in b.reachable(nt) and writes_def(x, ("push", "push_raw_str", "json_string"))]
+                        others = [x for x in b.calls() if writes_def(x, ("push_raw_str",))]
                         if not defw and others:
                             nm_ok = True
         ctx.check(nm_ok, "R03.3", fnkey(b) + "#no-metric-flag-suppresses-definition", loc(b), "the NoMetric flag no longer suppresses the metric definition (or is not branched on)")
